@@ -308,6 +308,13 @@ inductive PolicyOp where
   /-- PolicyPCR: the marshalled selection, the concatenated current values of the selected PCR, the digest the caller
       supplied (may be empty) and the TPM's PCR update counter -/
   | pcr (sel values given : Bytes) (g : Nat)
+  /-- the assertions whose only effect on the digest is policyDigest' = H(policyDigest ‖ commandCode ‖ args): PolicyLocality
+      (the locality byte), PolicyCpHash / PolicyNameHash / PolicyTemplate (the digest), PolicyNvWritten (the flag),
+      PolicyPhysicalPresence (nothing), PolicyCounterTimer (H(operandB ‖ offset ‖ operation)), PolicyDuplicationSelect
+      ([objectName] ‖ newParentName ‖ includeObject) -/
+  | assert (cc : Nat) (args : Bytes)
+  /-- `PolicyContextUpdate` of PolicySecret / PolicySigned: H(H(policyDigest ‖ commandCode ‖ entityName) ‖ policyRef) -/
+  | update (cc : Nat) (name ref : Bytes)
   deriving Repr
 
 /-- PolicyOR is accepted by a trial session always, by a real session when the current digest is listed -/
@@ -332,6 +339,8 @@ def policyStep (s : Session) : PolicyOp → Session × Nat
         ({ s with pDigest := hash sha256 (List.replicate 32 0 ++ be32 CC_PolicyOR ++ ds.flatten) }, 0)
       else (s, RC_VALUE)
   | .restart => ({ s with pDigest := List.replicate 32 0, needAuth := false, needPw := false, pcc := 0, pcrCtr := 0 }, 0)
+  | .assert cc args => ({ s with pDigest := hash sha256 (s.pDigest ++ be32 cc ++ args) }, 0)
+  | .update cc name ref => ({ s with pDigest := hash sha256 (hash sha256 (s.pDigest ++ be32 cc ++ name) ++ ref) }, 0)
   | .pcr sel values given g =>
       if s.trial then
         ({ s with pDigest := pcrExtend s.pDigest sel (if given = [] then hash sha256 values else given) }, 0)
